@@ -11,6 +11,11 @@
               followed by Roff::render, from MIR, user strings of symbolic bytes over the same alphabet plus
               `"`: K1 and K2 on the rendered text - here the escaping mode a user string travels in is chosen
               by the executed code, not assumed
+  udoc:*      whole documents with a symbolic user text: grammar `ut` takes every free text (item help, group
+              help, descr, header, footer; date / vendor / title of render_manpage) from a harness function that
+              is replaced by symbolic bytes, one slot at a time; render_manpage / collect_html + render_html from
+              MIR; K1 / K2 or the html obligations on the rendered document; one document per path and every
+              counterexample are compared byte for byte with the native build's
   style:*     html.rs change_style for all 8x8 (current, new) style pairs (symbolic booleans): the tags
               written close the open ones in reverse opening order and open the new ones
   html:*      Doc::render_html executed from MIR (incl. the Splitter) on the block structures bpaf emits,
@@ -267,6 +272,139 @@ def roff_obligations(ex, ob, out):
         if pushed:
             ex.solver.pop()
     return bad
+
+
+UDOC_SLOTS = {0: "item help", 1: "group_help", 2: "descr", 3: "header", 4: "footer", 5: "manpage date", 6: "manpage vendor", 7: "manpage title"}
+
+
+def run_udoc_job(job, build):
+    """whole documents with a *symbolic* user text: grammar `ut` takes every free text from user_text(i); slot
+    `slot` is k symbolic bytes, the others are "a".  render_manpage / collect_html + render_html executed from MIR;
+    the roff obligations K1 / K2 (manpage) or the html obligations (no user `<` `>`, balanced tags) are decided on
+    the rendered document, where user bytes are still symbolic.  One document per path is compared with the
+    native build's (same text through VERIF_TEXT<i>), and every counterexample is."""
+    from . import C12
+    from .framework import Replayer
+    prog = tok.load_program(build, "full")
+    models = C12.help_models()
+    models.pop("Doc::to_completion", None)
+    models.update(TM.TEXT_MODELS)
+    models.update(FM.FMT_MODELS)
+    fmt, slot, k = job["fmt"], job["slot"], job["len"]
+    alpha = ROFF_ALPHA if fmt == "man" else HTML_ALPHA
+    user = []
+
+    def m_user_text(ex, c, args):
+        i = args[0]
+        if i != slot:
+            return "a"
+        bs = [ex.fresh("u", 8) for _ in range(k)]
+        for b in bs:
+            ex.assume(z3.Or(*[b == a for a in alpha]))
+        user.append(bs)
+        return BStr(tuple(bs))
+    models["grammars::user_text"] = m_user_text
+    models["user_text"] = m_user_text
+    ex = tok.new_exec(prog, models=models, step_budget=8000000)
+    TM.install_hooks(ex)
+    ex.debug_repr = C12.stable_repr
+    out = {"stats": None, "cex": [], "inconclusive": [], "samples": [], "nontrivial": 0, "obligations": 0, "validate": []}
+
+    def harness(ex):
+        L = ex.prog.layout
+        del user[:]
+        p = ex.call(parse_callee("vharness::grammars::ut"), [])
+        if fmt == "man":
+            sec = Adt("Section", L.variant_index("Section", "General"), ())
+            extra = []
+            for i in (5, 6, 7):
+                extra.append(SOME(m_user_text(ex, None, [i])) if i == slot else NONE)
+            return ex.call(parse_callee("OptionParser::render_manpage"), [Ref(Cell(p, "p"), ()), "app", sec] + extra)
+        inner = p.fields[L.adts["OptionParser"]["fields"].index("inner")]
+        info = p.fields[L.adts["OptionParser"]["fields"].index("info")]
+        meta = ex.call(parse_callee("<P as Parser<T>>::meta"), [Ref(Cell(inner, "inner"), ())])
+        doc = ex.call(parse_callee("buffer::html::collect_html"), ["app", Ref(Cell(meta, "meta"), ()), Ref(Cell(info, "info"), ())])
+        return ex.call(parse_callee("Doc::render_html"), [Ref(Cell(doc, "doc"), ()), True, False])
+
+    def on_path(ex, r):
+        if r.kind != "ok":
+            m = ex.model()
+            out["cex"].append({"kind": "udoc-panics", "fmt": fmt, "slot": slot, "why": str(r.info), "user_text": [conc(m, u).decode("latin1") for u in user]})
+            return
+        ob = list(TM.to_bstr(r.value).b)
+        if ex.pc:
+            out["nontrivial"] += 1
+        if fmt == "man":
+            bad = roff_obligations(ex, ob, out)
+        else:
+            out["obligations"] += 1
+            bad = []
+            for b in ob:
+                if is_sym(b):
+                    c = z3.Or(b == 0x3C, b == 0x3E)
+                    if ex.check(c) == z3.sat:
+                        ex.solver.push()
+                        ex.solver.add(c)
+                        bad.append(("a user `<` or `>` reaches the output", ex.model()))
+                        ex.solver.pop()
+                        break
+            if not bad:
+                text = "".join(chr(b) if isinstance(b, int) else "\u00b7" for b in ob)
+                stack = []
+                why = None
+                for close, tag in parse_tags(text):
+                    if tag in VOID:
+                        continue
+                    if close:
+                        if not stack or stack[-1] != tag:
+                            why = "</%s> does not match the innermost open tag %r" % (tag, stack[-1:] or None)
+                            break
+                        stack.pop()
+                    else:
+                        stack.append(tag)
+                if why is None and stack:
+                    why = "tags left open: %r" % stack
+                if why:
+                    bad.append((why, ex.model()))
+        for why, m in bad[:1]:
+            out["cex"].append({"kind": "udoc-unsafe", "fmt": fmt, "slot": slot, "why": why, "user_text": [conc(m, u).decode("latin1") for u in user],
+                               "output": conc(m, ob).decode("latin1")})
+        if not bad:
+            m = ex.model()
+            if len(out["validate"]) < 6:
+                out["validate"].append(([conc(m, u).decode("latin1") for u in user], conc(m, ob).decode("latin1")))
+            if len(out["samples"]) < 1:
+                out["samples"].append({"udoc": fmt, "slot": UDOC_SLOTS[slot], "user_text": [conc(m, u).decode("latin1") for u in user], "bytes": len(ob)})
+    try:
+        ex.explore(harness, on_path, max_paths=100000)
+    except (Unmodelled, BoundExceeded, ExecError) as e:
+        out["inconclusive"].append("%s %s [%s]" % (type(e).__name__, e, "/".join(getattr(e, "stack", None) or ex.callstack[-3:])))
+    out["stats"] = dict(ex.stats)
+    out["models_used"] = dict(ex.model_hits)
+    out["fn_hits"] = dict(ex.fn_hits)
+    # native comparison: the same user text through VERIF_TEXT<slot>
+    import ast
+    rp = Replayer(build["sets"]["full"]["replay"])
+
+    def native(ut):
+        (cls, pay), = rp.run([("doc:%s:ut" % fmt, [], {"VERIF_TEXT%d" % slot: ut[0]} if ut else {})])
+        try:
+            return ast.literal_eval(pay) if cls == "doc" else None
+        except Exception:  # noqa: BLE001
+            return None
+    val = out.pop("validate")
+    agree = 0
+    for ut, text in val:
+        if native(ut) == text:
+            agree += 1
+        else:
+            out["inconclusive"].append("ENCODING-MISMATCH %s document of ut with %s = %r: MIR execution and the native build differ" % (fmt, UDOC_SLOTS[slot], ut))
+    out["validated"] = len(val)
+    out["validated_agree"] = agree
+    for c in out["cex"]:
+        if c["kind"] == "udoc-unsafe":
+            c["reproduced"] = native(c["user_text"]) == c["output"]
+    return out
 
 
 # ------------------------------------------------------------------------------------------------
@@ -835,6 +973,12 @@ def make_jobs(tier, seed, build):
                 continue
             for ap in ("Handle", "DontHandle"):
                 jobs.append({"id": "roff:%s:%d:%s" % (name, n, ap), "kind": "roff", "ops": name, "len": n, "ap": ap})
+    for fmt in ("man", "html"):
+        for slot in sorted(UDOC_SLOTS):
+            if fmt == "html" and slot > 4:
+                continue
+            for n in (1, 2, 3) if tier == "quick" else (1, 2, 3, 4):
+                jobs.append({"id": "udoc:%s:%d:%d" % (fmt, slot, n), "kind": "udoc", "fmt": fmt, "slot": slot, "len": n, "weight": n})
     jobs.append({"id": "style", "kind": "style"})
     for tname, t in TEMPLATES.items():
         nt = sum(1 for k, _ in t if k == "T")
@@ -873,6 +1017,8 @@ def run_job(job, build):
         return run_escape_job(job, build)
     if k == "roff":
         return run_roff_job(job, build)
+    if k == "udoc":
+        return run_udoc_job(job, build)
     if k == "style":
         return run_style_job(job, build)
     if k == "html":
@@ -910,6 +1056,12 @@ def finish(results, jobs, build, out, tier, seed, wall):
             if c["kind"] == "roff-unsafe":
                 out.violation(finding_key(c) or ("roff:%s:%s" % (c["why"][:40], r["job"])),
                               "roff escape(): %s; fragments %s, user text %r => %r" % (c["why"], c["frags"], c["user_text"], c["output"]), c)
+            elif c["kind"] == "udoc-unsafe":
+                what = "%s document of grammar ut with %s = %r: %s" % (c["fmt"], UDOC_SLOTS[c["slot"]], c["user_text"], c["why"])
+                if c.get("reproduced"):
+                    out.violation("udoc:%s:%d:%s" % (c["fmt"], c["slot"], c["why"][:40]), what, c)
+                else:
+                    out.inconc("NONREPRO " + what)
             elif c["kind"] == "html-malformed":
                 out.violation("html:%s:%s" % (c["template"], c["why"][:50]), "render_html(%s, full=%s) with text %r: %s; output %r" % (c["template"], c["full"], c["user_text"], c["why"], c["output"]), c)
             elif c["kind"] == "doc-incomplete":
@@ -932,10 +1084,11 @@ def finish(results, jobs, build, out, tier, seed, wall):
         "obligations": sum(r.get("obligations", 0) for r in results),
         "bounds": {"roff": "1..=%d fragments (5 of bpaf's own, 3 user modes), user fragments of 1..=%d bytes (one byte in sequences of four fragments) over {. ' \\\\ - space \\\\n a}" % ((3, 2) if tier == "quick" else (4, 3)),
                    "roff_api": "%d call sequences of the Roff builder (%s), user strings of 1..=%d symbolic bytes over {. ' \\ - space \\n a \"}, at most %d symbolic bytes per sequence, both apostrophe modes" % (len(ROFF_OPS), " ".join(ROFF_OPS), 3 if tier == "quick" else 4, 4 if tier == "quick" else 6),
+                   "udoc": "grammar ut, 8 text slots (5 in html), user text of 1..=%d symbolic bytes in one slot at a time, the others are `a`" % (3 if tier == "quick" else 4),
                    "html": "7 block templates, text bytes over {< > & a space \\\\n}, total text length <= %d, full and short" % (4 if tier == "quick" else 5),
                    "style": "all 64 (current, new) pairs", "sections": "c1 c2 c3 c4 h2 g1 c7 c8 c9",
                    "documents": "markdown, html and manpage of %s: every command level has exactly one section, each section mentions the visible named items and commands of its level, hidden items are mentioned nowhere; text identical to the native build's" % " ".join(DOC_GRAMMARS)},
-        "jobs": {k: len([j for j in jobs if j["kind"] == k]) for k in ("escape", "roff", "style", "html", "sections", "doc", "gendoc")},
+        "jobs": {k: len([j for j in jobs if j["kind"] == k]) for k in ("escape", "roff", "udoc", "style", "html", "sections", "doc", "gendoc")},
         "traces_validated_against_impl": sum(r.get("validated_agree", 0) for r in results),
         "functions_encoded": sorted(fw.merge_counts(results, "fn_hits")),
         "models_used": fw.merge_counts(results, "models_used"),
